@@ -42,8 +42,6 @@ SP_NAME = {"int": "Integer", "rat": "Rational", "flt": "Float", "sym": "Symbol",
            "pow": "Pow", "sin": "sin", "cos": "cos", "tan": "tan", "atan": "atan", "add": "Add", "sub": "Sub",
            "mul": "Mul", "div": "Div", "lt": "Lt", "le": "Le", "eq": "Eq", "ne": "Ne", "min": "Min", "max": "Max",
            "fmod": "Mod", "ite": "Piecewise", "call": "f_dict"}
-SP_SUPPORTED = {"int", "rat", "flt", "sym", "neg", "sqrt", "pow", "sin", "cos", "tan", "atan", "add", "sub", "mul",
-                "div", "call"}          # constructs sympy_to_casadi has a branch for
 CA_NAME = {"int": "OP_CONST", "rat": "OP_CONST", "flt": "OP_CONST", "sym": "OP_PARAMETER", "neg": "OP_NEG",
            "sqrt": "OP_SQRT", "sin": "OP_SIN", "cos": "OP_COS", "tan": "OP_TAN", "atan": "OP_ATAN",
            "add": "OP_ADD", "sub": "OP_SUB", "mul": "OP_MUL", "div": "OP_DIV", "lt": "OP_LT", "le": "OP_LE",
@@ -840,8 +838,6 @@ def main():
             cov = collections.Counter()
             check_symbol_tables(run, cov)
             check_extras(run, cov, set())
-            if tree and tree[0] == "mat":
-                check_matrices(run, [(tree, [(totuple(d["env"]), ())])], set(), set(), cov) if False else None
             return run.finish()
         envs = [(totuple(e), totuple(x)) for e, x in d["envs"]]
         res = new_res(); res["done"] = set()
